@@ -620,8 +620,12 @@ impl Scenario for BoundedScenario {
                 _ => (full.iter().copied().collect::<Bounded<Vec<u64>>>(), 0),
             };
             // check that the constructor produced the documented state, then continue from it
+            // what the constructor promises: capacity, number of live elements and their order
+            // (the representation — where `start` points — is its own business)
+            let seen: Vec<u64> = rb.iter().copied().collect();
+            let want: Vec<u64> = (0..live as u64).map(|i| 1000 + i).collect();
+            check_eq!(obs, (rb.len(), rb.max_len(), seen), (live, cap, want), "bounded.constructor", "(len, capacity, contents) after constructor {}", ctor);
             let (s0, l0, d0) = unsafe { rb.into_raw_parts() };
-            check_eq!(obs, (s0, l0, d0.len()), (0, live, cap), "bounded.constructor", "(start, len, capacity) after constructor {}", ctor);
             return drive_bounded(d0, s0, l0, steps, opmask, src, obs);
         }
         match storage {
@@ -1016,8 +1020,9 @@ impl Scenario for FixedScenario {
         obs.note(n as u64 * 1000 + storage as u64 * 100 + first as u64 + ctor as u64 * 7919);
         if ctor != 0 {
             let rb: Fixed<Vec<u64>> = if ctor == 1 { Fixed::from(data.clone()) } else { data.iter().copied().collect() };
+            let seen: Vec<u64> = rb.iter().copied().collect();
+            check_eq!(obs, (rb.len(), seen), (n, data.clone()), "fixed.constructor", "(len, contents in order) after constructor {}", ctor);
             let (f0, d0) = rb.into_raw_parts();
-            check_eq!(obs, (f0, d0.len()), (0, n), "fixed.constructor", "(first, len) after constructor {}", ctor);
             return drive_fixed(d0, f0, steps, opmask, src, obs);
         }
         match storage {
